@@ -587,6 +587,7 @@ func runC07(c *Ctx) {
 	checkSrcMAC(c, libFns)
 	checkARPAddrComplete(c, libFns)
 	checkDHCPInPlace(c)
+	checkDHCPNak(c)
 	checkOptionsSent(c)
 
 	// ---- checksum order ----
@@ -1350,6 +1351,52 @@ func wholeStored(al *ssa.Alloc) bool {
 		}
 	}
 	return false
+}
+
+// checkDHCPNak: a DHCPNAK is encoded over the request, whose ciaddr and yiaddr bytes are still in the buffer.
+// EncodeDHCP4 leaves an address field alone when it is passed an address that is not IPv4 (the zero netip.Addr), so
+// the NAK has ciaddr = yiaddr = 0 (RFC 2131 table 3) only if both arguments are the constant IPv4zero; the hardware
+// address and the transaction id are the request's (nil arguments), the opcode is BOOTREPLY.
+func checkDHCPNak(c *Ctx) {
+	c.R.Rule("dhcp-nak", "every DHCPNAK is a BOOTREPLY with ciaddr and yiaddr explicitly zero, chaddr and xid of the request", 1)
+	n := 0
+	kg := core.NewKeyGen()
+	for _, fn := range c.P.ModuleFunctions() {
+		for _, s := range callsIn(fn, nameIs("EncodeDHCP4")) {
+			a := s.Common().Args
+			if len(a) != 10 || norm(a[2]) != "6" {
+				continue
+			}
+			n++
+			var bad []string
+			if norm(a[1]) != "2" {
+				bad = append(bad, "opcode "+norm(a[1]))
+			}
+			for k, name := range map[int]string{4: "ciaddr", 5: "yiaddr"} {
+				g, isG := a[k].(*ssa.UnOp)
+				if !isG || norm(a[k]) != "IPv4zero" {
+					bad = append(bad, name+" = "+norm(a[k])+" (an argument that is not IPv4 keeps the request's "+name+" bytes)")
+				} else if gl, ok := g.X.(*ssa.Global); !ok || gl.Pkg.Pkg.Path() != core.ModPath {
+					bad = append(bad, name+" is not packet.IPv4zero")
+				}
+			}
+			if norm(a[3]) != "nil" || norm(a[6]) != "nil" {
+				bad = append(bad, "chaddr "+norm(a[3])+" xid "+norm(a[6]))
+			}
+			st, det := core.Proved, ""
+			if len(bad) > 0 {
+				sort.Strings(bad)
+				st = core.Violated
+				det = "the DHCPNAK built here carries " + strings.Join(bad, "; ")
+			}
+			key := strings.TrimSuffix(kg.Key("dhcp-nak "+core.FuncName(fn)), "#0")
+			c.R.Add(core.Obligation{Rule: "dhcp-nak", Key: key, Func: core.FuncName(fn), Pos: c.P.Pos(core.PosOf(s.(ssa.Instruction))), Status: st,
+				Basis: "EncodeDHCP4(req, BootReply, NAK, nil, IPv4zero, IPv4zero, nil, ...)", Detail: det})
+		}
+	}
+	if n == 0 {
+		c.R.Add(core.Obligation{Rule: "dhcp-nak", Key: "dhcp-nak sites", Status: core.Violated, Detail: "no EncodeDHCP4 call with message type NAK found"})
+	}
 }
 
 // checkDHCPInPlace: the DHCP server encodes its reply over the request, and the option values it echoes (client
